@@ -14,4 +14,11 @@ EXTRA = {
     "C13": (("gen_tables_tonal.py",), ()),     # Scale.get, Key.get/semitones/__contains__/nearest_note -> Tonal/KeySrc.v, Props/C13Src.v
     "C14": (("gen_tables_mult.py",), ()),      # isobar/util.py make_clock_multiplier -> Clock/MultiplierSrc.v, Props/C14Src.v
     "C20": (("gen_tables_notation.py",), ()),  # isobar/notation/notation.py parse_notation -> Notation/ParserSrc.v, Props/C20Src.v
+    # the pattern engine: method bodies of the pattern classes translated from the source text (Generated/TablesStep.v),
+    # tied to Pat/Step.v in Pat/StepSrc.v (Props/C10Src.v; docs/TRANSLATOR.md)
+    "C04": (("gen_tables_step.py",), ()),
+    "C08": (("gen_tables_step.py",), ()),
+    "C09": (("gen_tables_step.py",), ()),
+    "C10": (("gen_tables_step.py",), ()),
+    "C12": (("gen_tables_step.py",), ()),
 }
